@@ -206,6 +206,16 @@ func (g *gen) makeWorld(kind string, n int, w *world) *wspec {
 	return ws
 }
 
+func consMatches(cons, tags string) bool {
+	switch cons {
+	case "all", "t":
+		return true
+	case "n":
+		return tags == "ab"
+	}
+	return strings.Contains(tags, cons)
+}
+
 // expected order, computed by the oracle from the spec times: time desc, then ref desc
 func (ws *wspec) expectedFull(sortk, cons string) []string {
 	type it struct {
@@ -214,7 +224,7 @@ func (ws *wspec) expectedFull(sortk, cons string) []string {
 	}
 	var l []it
 	for i, p := range ws.pns {
-		if cons != "all" && !strings.Contains(p.tags, cons) {
+		if !consMatches(cons, p.tags) {
 			continue
 		}
 		var t time.Time
@@ -347,124 +357,144 @@ func (g *gen) runWorld(kind string, n int, limits []int, aroundLimits []int) {
 		fmt.Fprintf(&sb, "%d", run)
 		return sb.String()
 	}
-	for _, sortk := range []string{"c", "m"} {
-		for _, cons := range []string{"all", "a", "b"} {
-			fullOut := parseQ(g.do(fmt.Sprintf("q %s %s -1 -", sortk, cons)))
-			if !fullOut.ok {
-				r.Fail("full-query-error", "limit-free query failed", "ok", "err", r.CaseOps())
-				continue
-			}
-			full := fullOut.idx
-			// the limit-free list itself: exactly the matching permanodes, time desc then ref desc
-			if exp := ws.expectedFull(sortk, cons); join(exp) != join(full) {
-				r.Fail("full-order", "limit-free result is not (time desc, ref desc) of the matching permanodes", join(exp), join(full), r.CaseOps())
-			}
-			r.Hit("order:enumerate-" + sortk)
-			outRange, neg, tied := false, false, false
-			for k, s := range full {
-				i, _ := strconv.Atoi(s)
-				t, _ := ws.timeOf(sortk, i)
-				if !inInt64(t) {
-					outRange = true
-				} else if t.UnixNano() < 0 {
-					neg = true
-				}
-				if k > 0 {
-					j, _ := strconv.Atoi(full[k-1])
-					if tp, _ := ws.timeOf(sortk, j); tp.Equal(t) {
-						tied = true
-					}
-				}
-			}
-			sig := timesig(sortk, full)
-			for _, limit := range limits {
-				cat, toks, capped, errd := g.followPages(sortk, cons, limit, len(full))
-				if len(toks) > 0 {
-					r.Hit("continue:token-followed")
-					if len(full) > limit {
-						r.Distinct(fmt.Sprintf("page|%s|%s|%d|%s", sortk, cons, limit, sig))
-					}
-					if tied {
-						r.Hit("continue:tied-times")
-					}
-					if neg {
-						r.Hit("continue:pre-1970")
-					}
-				}
-				if !errd && !capped && join(cat) == join(full) {
+	round := func(conss []string, limits, aroundLimits []int) {
+		for _, sortk := range []string{"c", "m"} {
+			for _, cons := range conss {
+				fullOut := parseQ(g.do(fmt.Sprintf("q %s %s -1 -", sortk, cons)))
+				if !fullOut.ok {
+					r.Fail("full-query-error", "limit-free query failed", "ok", "err", r.CaseOps())
 					continue
 				}
-				negTok := false
-				for _, t := range toks {
-					if strings.HasPrefix(t, "pn:-") {
-						negTok = true
-					}
+				full := fullOut.idx
+				// the limit-free list itself: exactly the matching permanodes, time desc then ref desc
+				if exp := ws.expectedFull(sortk, cons); join(exp) != join(full) {
+					r.Fail("full-order", "limit-free result is not (time desc, ref desc) of the matching permanodes", join(exp), join(full), r.CaseOps())
 				}
-				sigf := "paging-mismatch"
-				switch {
-				case errd:
-					sigf = "paging-query-error"
-				case outRange:
-					sigf = "paging-unixnano-out-of-int64-range"
-				case negTok:
-					sigf = "paging-negative-unixnano-token"
-				}
-				detail := fmt.Sprintf("sort=%s cons=%s limit=%d: pages concatenated differ from the full list (capped=%v)", sortk, cons, limit, capped)
-				r.Fail(sigf, detail, join(full), join(cat), r.CaseOps())
-			}
-			if cons == "b" {
-				continue
-			}
-			// Around: every pivot of the world, plus a ref that is no permanode of the world
-			pivots := make([]string, 0, len(ws.pns)+1)
-			for i := range ws.pns {
-				pivots = append(pivots, strconv.Itoa(i))
-			}
-			pivots = append(pivots, "?")
-			for _, pv := range pivots {
-				var pref string
-				if pv == "?" {
-					pref = blob.RefFromString("no such permanode " + sig).String()
-				} else {
-					i, _ := strconv.Atoi(pv)
-					pref = ws.pns[i].ref.String()
-				}
-				inFull := false
-				for _, s := range full {
-					if s == pv {
-						inFull = true
+				r.Hit("order:enumerate-" + sortk)
+				outRange, neg, tied := false, false, false
+				for k, s := range full {
+					i, _ := strconv.Atoi(s)
+					t, _ := ws.timeOf(sortk, i)
+					if !inInt64(t) {
+						outRange = true
+					} else if t.UnixNano() < 0 {
+						neg = true
 					}
-				}
-				for _, limit := range aroundLimits {
-					out := parseQ(g.do(fmt.Sprintf("ar %s %s %d %s", sortk, cons, limit, hk.Hex([]byte(pref)))))
-					r.Hit("around:query")
-					if !out.ok {
-						r.Fail("around-query-error", "around query failed", "ok", "err", r.CaseOps())
-						continue
-					}
-					if out.cont != "" {
-						r.Fail("around-has-continue", "around result carries a continue token", "-", out.cont, r.CaseOps())
-					}
-					if !inFull {
-						r.Hit("around:pivot-not-matching")
-						if len(out.idx) != 0 {
-							r.Fail("around-nonmatching-pivot-nonempty", fmt.Sprintf("sort=%s cons=%s limit=%d pivot=%s", sortk, cons, limit, pv), "-", join(out.idx), r.CaseOps())
+					if k > 0 {
+						j, _ := strconv.Atoi(full[k-1])
+						if tp, _ := ws.timeOf(sortk, j); tp.Equal(t) {
+							tied = true
 						}
+					}
+				}
+				sig := timesig(sortk, full)
+				for _, limit := range limits {
+					cat, toks, capped, errd := g.followPages(sortk, cons, limit, len(full))
+					if len(toks) > 0 {
+						r.Hit("continue:token-followed")
+						if len(full) > limit {
+							r.Distinct(fmt.Sprintf("page|%s|%s|%d|%s", sortk, cons, limit, sig))
+						}
+						if tied {
+							r.Hit("continue:tied-times")
+						}
+						if neg {
+							r.Hit("continue:pre-1970")
+						}
+					}
+					if !errd && !capped && join(cat) == join(full) {
 						continue
 					}
-					if len(full) > limit && limit > 0 {
-						r.Distinct(fmt.Sprintf("around|%s|%s|%d|%s|%d", sortk, cons, limit, sig, indexOf(full, pv)))
-						r.Hit("around:window-truncated")
+					negTok := false
+					for _, t := range toks {
+						if strings.HasPrefix(t, "pn:-") {
+							negTok = true
+						}
 					}
-					if !isWindow(full, out.idx, pv) || (limit > 0 && len(out.idx) > limit) {
-						r.Fail("around-window", fmt.Sprintf("sort=%s cons=%s limit=%d pivot=%s: not a contiguous window of the full list containing the pivot", sortk, cons, limit, pv),
-							"window of "+join(full)+" around "+pv, join(out.idx), r.CaseOps())
+					sigf := "paging-mismatch"
+					switch {
+					case errd:
+						sigf = "paging-query-error"
+					case outRange:
+						sigf = "paging-unixnano-out-of-int64-range"
+					case negTok:
+						sigf = "paging-negative-unixnano-token"
+					}
+					detail := fmt.Sprintf("sort=%s cons=%s limit=%d: pages concatenated differ from the full list (capped=%v)", sortk, cons, limit, capped)
+					r.Fail(sigf, detail, join(full), join(cat), r.CaseOps())
+				}
+				if cons != "all" && cons != "a" {
+					continue
+				}
+				// Around: every pivot of the world, plus a ref that is no permanode of the world
+				pivots := make([]string, 0, len(ws.pns)+1)
+				for i := range ws.pns {
+					pivots = append(pivots, strconv.Itoa(i))
+				}
+				pivots = append(pivots, "?")
+				for _, pv := range pivots {
+					var pref string
+					if pv == "?" {
+						pref = blob.RefFromString("no such permanode " + sig).String()
+					} else {
+						i, _ := strconv.Atoi(pv)
+						pref = ws.pns[i].ref.String()
+					}
+					inFull := false
+					for _, s := range full {
+						if s == pv {
+							inFull = true
+						}
+					}
+					for _, limit := range aroundLimits {
+						out := parseQ(g.do(fmt.Sprintf("ar %s %s %d %s", sortk, cons, limit, hk.Hex([]byte(pref)))))
+						r.Hit("around:query")
+						if !out.ok {
+							r.Fail("around-query-error", "around query failed", "ok", "err", r.CaseOps())
+							continue
+						}
+						if out.cont != "" {
+							r.Fail("around-has-continue", "around result carries a continue token", "-", out.cont, r.CaseOps())
+						}
+						if !inFull {
+							r.Hit("around:pivot-not-matching")
+							if len(out.idx) != 0 {
+								r.Fail("around-nonmatching-pivot-nonempty", fmt.Sprintf("sort=%s cons=%s limit=%d pivot=%s", sortk, cons, limit, pv), "-", join(out.idx), r.CaseOps())
+							}
+							continue
+						}
+						if len(full) > limit && limit > 0 {
+							r.Distinct(fmt.Sprintf("around|%s|%s|%d|%s|%d", sortk, cons, limit, sig, indexOf(full, pv)))
+							r.Hit("around:window-truncated")
+						}
+						if !isWindow(full, out.idx, pv) || (limit > 0 && len(out.idx) > limit) {
+							r.Fail("around-window", fmt.Sprintf("sort=%s cons=%s limit=%d pivot=%s: not a contiguous window of the full list containing the pivot", sortk, cons, limit, pv),
+								"window of "+join(full)+" around "+pv, join(out.idx), r.CaseOps())
+						}
 					}
 				}
 			}
 		}
 	}
+	round([]string{"all", "a", "b", "t", "n"}, limits, aroundLimits)
 	g.unsortedSorts(ws, limits, aroundLimits)
+	// the corpus grows between queries: the sorted-permanode caches of the corpus must be rebuilt
+	if g.r.R.Chance(50) {
+		k := 1 + g.r.R.Intn(2)
+		more := g.makeWorld(kind, k, w)
+		for _, p := range more.pns {
+			out := g.do(p.op())
+			at, aok := p.anytime()
+			mt, mok := p.modtime()
+			if want := "ok " + showTime(at, aok) + " " + showTime(mt, mok); out != want {
+				r.Fail("world-times", "added permanode: corpus times differ from the claims uploaded", want, out, r.CaseOps())
+				return
+			}
+			ws.pns = append(ws.pns, p)
+		}
+		r.Hit("order:cache-invalidated-by-new-permanode")
+		round([]string{"all", "a"}, limits[1:3], aroundLimits[1:2])
+	}
 	if len(r.Res.Samples) < 6 {
 		r.Sample(map[string]any{"world": kind, "n": n, "first_op": ws.pns[0].op()})
 	}
@@ -489,7 +519,7 @@ func (ws *wspec) expectedUnsorted(sortk, cons string) (out []string, sortErr boo
 	var l []int
 	missing := false
 	for i, p := range ws.pns {
-		if cons != "all" && !strings.Contains(p.tags, cons) {
+		if !consMatches(cons, p.tags) {
 			continue
 		}
 		if _, ok := p.anytime(); !ok {
@@ -670,10 +700,21 @@ func (g *gen) tokenStream() {
 	}
 }
 
+// mix64 is the splitmix64 finalizer.
+func mix64(z uint64) uint64 {
+	z += 0x9E3779B97F4A7C15
+	z = (z ^ (z >> 30)) * 0xBF58476D1CE4E5B9
+	z = (z ^ (z >> 27)) * 0x94D049BB133111EB
+	return z ^ (z >> 31)
+}
+
 // Run is the generator + oracle of C09.
 func Run(r *hk.Run) {
 	g := &gen{r: r, ex: nil}
 	r.Res.Rule = "one case = one world (real index+corpus) of n planned permanodes whose dateCreated / claim dates are drawn from a small pool of instants (kinds: one, modern, subsec, pre1970, epoch, edge64in, mixed; and outside int64 nanoseconds: edge64out, far); per world, sort (created/lastmod) and constraint (all/tag a/tag b): the limit-free query is the oracle list, every limit is followed page by page, every permanode (and one foreign ref) is used as Around pivot; the same Around pivots and limits on the sorts with an unsorted candidate source (BlobRefAsc always, CreatedAsc in worlds with pairwise distinct creation times). distinct = distinct (kind of query, sort, constraint, limit, tie/sign shape of the ordered list[, pivot position]); non-trivial = the full list is longer than the limit (at least two pages / a truncated window)"
+	// hk.NewRand(seed) makes consecutive seeds offsets (by one draw) of the same stream, and a generator
+	// with data-dependent draw counts re-synchronises them: decorrelate the seeds first
+	r.R = hk.NewRand(mix64(r.Res.Seed))
 	rnd := r.R
 	nWorlds, maxN := 32, 9
 	limits := []int{1, 2, 3, 4, 5}
